@@ -96,6 +96,18 @@ def run_case(ctx, case):
     if not default or rng.random() < 0.5:
         kwargs = {"remove_completed_machine_nodes": case["rm_machines"],
                   "remove_completed_job_nodes": case["rm_jobs"]}
+    if case["seed"] % 5 == 1:
+        # observers that only track some feature types already exist when the updater is built
+        from job_shop_lib.dispatching.feature_observers import (FeatureType, IsCompletedObserver,
+                                                               RemainingOperationsObserver)
+        which = rng.choice(["completed_jobs", "completed_machines", "remaining_jobs",
+                            "remaining_machines", "completed_ops"])
+        ft = {"completed_jobs": FeatureType.JOBS, "completed_machines": FeatureType.MACHINES,
+              "remaining_jobs": FeatureType.JOBS, "remaining_machines": FeatureType.MACHINES,
+              "completed_ops": FeatureType.OPERATIONS}[which]
+        (IsCompletedObserver if which.startswith("completed") else RemainingOperationsObserver)(
+            d, feature_types=[ft])
+        ctx.count("partial_observers_present_before_updater")
     if case["seed"] % 6 == 0:
         # documented alternative: build unsubscribed, attach by hand
         upd = ResidualGraphUpdater(d, g0, subscribe=False, **kwargs)
